@@ -1,0 +1,35 @@
+//go:build verif
+
+package report
+
+// Contracts for the deductive verifier in /verif (comment-only file; see /verif/DESIGN.md).
+// C15: structure of the Sentry report.
+
+// cntSt(s, lo): number of layers with a stack trace among s[lo:]
+//@ spec func cntSt(s []*withstack.ReportableStackTrace, lo int) int
+//@ unfold cntSt(s, lo) = (lo < 0 || lo >= len(s)) ? 0 : ((s[lo] != nil ? 1 : 0) + cntSt(s, lo + 1))
+
+//@ func reverseExceptionOrder
+//@   props C15
+//@   inline
+//@   ensures len(ex) == len(old(ex))
+//@   ensures forall k int :: 0 <= k && k < len(ex) ==> ex[k] == old(ex)[len(ex) - 1 - k]
+//@   loop 1: invariant 0 <= i && 2 * i <= len(ex) && len(ex) == len(old(ex))
+//@           invariant forall k int :: 0 <= k && k < i ==> ex[k] == old(ex)[len(ex) - 1 - k] && ex[len(ex) - 1 - k] == old(ex)[k]
+//@           invariant forall k int :: i <= k && k < len(ex) - i ==> ex[k] == old(ex)[k]
+
+//@ func BuildSentryReport
+//@   props C15
+//@   groundunfold cntSt
+//@   ensures err == nil ==> event == nil && extraDetails == nil
+//@   ensures err != nil ==> event != nil && len(stacks) == len(details)
+//@   ensures err != nil && cntSt(stacks, 0) == 0 ==> len(event.Exception) == 1 && event.Exception[0].Module == domainOf(err) && event.Exception[0].Stacktrace == nil
+//@   ensures err != nil && cntSt(stacks, 0) > 0 ==> len(event.Exception) == cntSt(stacks, 0)
+//@   ensures err != nil ==> (forall j int :: 0 <= j && j < len(stacks) && stacks[j] != nil ==> event.Exception[cntSt(stacks, 0) - 1 - cntSt(stacks, j + 1)].Stacktrace == stacks[j] && event.Exception[cntSt(stacks, 0) - 1 - cntSt(stacks, j + 1)].Module == domainOf(err))
+//@   callback visitAllMulti: invariant len(stacks) == $ncalls && len(details) == $ncalls
+//@                           invariant forall k int :: 0 <= k && k < $ncalls ==> details[k] == errbase.sdOf($call(k))
+//@   loop 1: isolated
+//@           invariant 0 - 1 <= i && i < len(details) && len(stacks) == len(details)
+//@           invariant len(exceptions) == cntSt(stacks, i + 1) && module == domainOf(err)
+//@           invariant forall j int :: i < j && j < len(stacks) && stacks[j] != nil ==> cntSt(stacks, j + 1) < len(exceptions) && 0 <= cntSt(stacks, j + 1)
+//@           invariant forall j int :: i < j && j < len(stacks) && stacks[j] != nil ==> exceptions[cntSt(stacks, j + 1)].Stacktrace == stacks[j] && exceptions[cntSt(stacks, j + 1)].Module == module
